@@ -341,6 +341,10 @@ pub struct SchedCfg {
     /// Kill process `proc` just before its n-th call.
     pub crash_at: Option<(usize, u64)>,
     pub max_steps: u64,
+    /// "hot spot" strategy: at calls that publish, remove or re-stamp
+    /// (link, rename, unlink, utimens) the running participant is preempted
+    /// with this probability (permille) instead of 1000 - stay
+    pub hot_switch: u64,
 }
 
 impl Default for SchedCfg {
@@ -351,6 +355,7 @@ impl Default for SchedCfg {
             freeze_at: None,
             crash_at: None,
             max_steps: 200_000,
+            hot_switch: 0,
         }
     }
 }
@@ -630,7 +635,7 @@ impl Sim {
     /// Chooses who performs the next call.  `me` is the participant at a
     /// scheduling point (None when called from the main thread or from a
     /// participant that just finished).
-    fn pick(st: &mut State, me: Option<usize>) -> Option<usize> {
+    fn pick(st: &mut State, me: Option<usize>, hot: bool) -> Option<usize> {
         // freeze point reached?
         if let Some((at, survivor)) = st.sched.freeze_at {
             if st.step >= at {
@@ -654,7 +659,8 @@ impl Sim {
             return Some(runnable[0]);
         }
         let d = st.tape.draw(1000);
-        if me_ok && d < st.sched.stay {
+        let stay = if hot && st.sched.hot_switch > 0 { 1000 - st.sched.hot_switch.min(1000) } else { st.sched.stay };
+        if me_ok && d < stay {
             return me;
         }
         let others: Vec<usize> = runnable.iter().copied().filter(|&i| Some(i) != me).collect();
@@ -663,9 +669,9 @@ impl Sim {
     }
 
     /// Hands the baton on and waits until it comes back.
-    fn yield_point<'a>(&'a self, mut st: MutexGuard<'a, State>, me: usize) -> MutexGuard<'a, State> {
+    fn yield_point<'a>(&'a self, mut st: MutexGuard<'a, State>, me: usize, hot: bool) -> MutexGuard<'a, State> {
         st.progress += 1;
-        let next = Self::pick(&mut st, Some(me));
+        let next = Self::pick(&mut st, Some(me), hot);
         match next {
             Some(n) if n == me => return st,
             Some(n) => {
@@ -707,7 +713,7 @@ impl Sim {
         let mut st = self.lock();
         st.parts[me].state = PState::Done;
         st.progress += 1;
-        match Self::pick(&mut st, None) {
+        match Self::pick(&mut st, None, false) {
             Some(n) => {
                 st.current = Some(n);
                 self.cvs[n].notify_one();
@@ -773,7 +779,7 @@ impl Sim {
         // start
         {
             let mut st = self.lock();
-            match Self::pick(&mut st, None) {
+            match Self::pick(&mut st, None, false) {
                 Some(f) => {
                     st.current = Some(f);
                     self.cvs[f].notify_one();
@@ -813,7 +819,7 @@ impl Sim {
                     st.parts[i].dead = true;
                     st.parts[i].frozen = false;
                 }
-                if let Some(f) = Self::pick(&mut st, None) {
+                if let Some(f) = Self::pick(&mut st, None, false) {
                     st.current = Some(f);
                     self.cvs[f].notify_one();
                 }
@@ -901,7 +907,8 @@ impl Sim {
         }
         if let Some(me) = ctx.part {
             if sched_point {
-                st = self.yield_point(st, me);
+                let hot = matches!(kind, K::Link | K::Rename | K::Unlink | K::Utimens);
+                st = self.yield_point(st, me, hot);
                 if dead(&st) {
                     drop(st);
                     return Self::dead_call();
